@@ -22,6 +22,7 @@ def ghosts(ctx):
     g.owner = z3.Function('owner', F, R)
     g.cidx = z3.Function('cidx', F, z3.IntSort())
     g.ridx = z3.Function('ridx', R, z3.IntSort())
+    g.depth = z3.Function('depth', F, z3.IntSort())
     ctx._ghosts = g
     return g
 
@@ -48,6 +49,10 @@ def wf_axioms(ctx, path, unique_names=True):
     ax = []
     ax.append(z3.ForAll([f], z3.Implies(f != nF, z3.And(rel_len(f) >= 0, at_len(f) >= 0, g.height(f) >= 0, fcard(f) != nK)),
                         patterns=[rel_len(f), at_len(f), g.height(f), fcard(f)]))
+    ax.append(z3.ForAll([f], z3.Implies(f != nF, z3.And(g.depth(f) >= 0,
+                                                        z3.Implies(fparent(f) != nF, g.depth(f) == g.depth(fparent(f)) + 1),
+                                                        z3.Implies(fparent(f) == nF, g.depth(f) == 0))),
+                        patterns=[g.depth(f)]))
     ax.append(z3.ForAll([f, i], z3.Implies(z3.And(f != nF, 0 <= i, i < rel_len(f)),
                                            z3.And(rel_at(f, i) != nR, rparent(rel_at(f, i)) == f, g.ridx(rel_at(f, i)) == i)),
                         patterns=[rel_at(f, i)]))
@@ -83,6 +88,6 @@ def wf_axioms(ctx, path, unique_names=True):
 
 WF_TEXT = ('wf axioms (hand-encoded, pyvc/theory.py): every relation has >= 1 child, a non-null owner that lists it, '
            '0 <= card_min <= card_max <= len(children); every child points back to the owner of its relation, '
-           'sits in exactly one (relation, index) slot, has smaller height than its parent; feature names are '
+           'sits in exactly one (relation, index) slot, has smaller height and depth + 1 of its parent; feature names are '
            'non-empty and pairwise distinct; the root has no parent; attributes point back to their feature; '
            'fields have their annotated types')
